@@ -384,15 +384,35 @@ func opMutate(g *G, name string) (interface{}, []uint64, int, interface{}) {
 			if name == "mutAddLink" && g.chance(0.6) {
 				// SEQUENCE on one Genome object within a generation: add a link, then toggle other genes off so that the
 				// SAME node pair now counts as a link of the other kind (recurrent <-> forward), then add a link again
-				// while the first link's record is still listed: the record must not be reused for the other kind
-				n := 0
+				// while the first link's record is still listed: the record must not be reused for the other kind.
+				// Directed form: the link just added is recurrent a->b, every other gene leaving b is switched off (no
+				// forward path b ~> a remains), and only forward links are asked for
+				var added *genetics.Gene
 				for _, x := range gn.Genes {
-					if x.IsEnabled && n < 2 && g.chance(0.35) {
-						x.IsEnabled = false
-						n++
+					if added == nil || x.InnovationNum > added.InnovationNum {
+						added = x
 					}
 				}
-				opts.RecurOnlyProb = []float64{0, 0.5, 1}[g.intn(3)]
+				if added != nil && added.Link.IsRecurrent && added.Link.InNode.Id != added.Link.OutNode.Id && g.chance(0.7) {
+					for _, x := range gn.Genes {
+						if x != added && x.Link.InNode.Id == added.Link.OutNode.Id {
+							x.IsEnabled = false
+						}
+					}
+					opts.RecurOnlyProb = 0
+					if g.chance(0.5) {
+						seed = g.seed63()
+					}
+				} else {
+					n := 0
+					for _, x := range gn.Genes {
+						if x.IsEnabled && n < 2 && g.chance(0.35) {
+							x.IsEnabled = false
+							n++
+						}
+					}
+					opts.RecurOnlyProb = []float64{0, 0.5, 1}[g.intn(3)]
+				}
 				regMode = "matching-in-genome-toggled"
 			}
 		}
